@@ -6,6 +6,31 @@ ids = [p['id'] for p in props]
 
 # id -> (category, technique, level text, level note, design ref); only built checks are listed
 CHECKS = {
+ "C01": ("exploration",
+   "property-based testing: model-based (reference lattice join) check over bounded-exhaustive update sequences, proptest multisets with generated permutation/duplication/split plans, and two-instance state exchange",
+   "Every update sequence up to length 4 (quick) / 5 (thorough) over the 18-letter single-address alphabet is enumerated completely; larger multisets, several addresses, own-address generations and state exchange are sampled with shrinking. Outside the enumerated sub-space the evidence is bounded by the reported counts.",
+   "Trusts the 30-line lattice model as the statement's reading of SWIM precedence; harness identity order total per address.",
+   "DESIGN.md §4 C01"),
+ "C07": ("exploration",
+   "property-based testing: independent wire-grammar parser + peer-acceptance differential over every datagram of a byte-by-byte packet-size sweep (4 codecs) and of proptest histories with preloaded backlogs",
+   "The free space behind the header is swept one byte at a time for every message kind, 5 backlog loads and 4 codecs; random histories add arbitrary backlog contents and packet sizes to 64 KiB.",
+   "The parser shares only the (user-supplied) codec with Foca; sender incarnation read via the hook snapshot.",
+   "DESIGN.md §4 C07"),
+ "C14": ("exploration",
+   "property-based testing: complete enumeration of small member layouts x 256 RNG seeds, proptest larger layouts with generated prefixes, sliding-window oracle over observed Ping destinations",
+   "All arrangements with n+d<=5, 256 seeds and 0..3 warm-up rounds are enumerated completely; n up to 12 (quick) / 20 (thorough) with random prefixes are sampled.",
+   "Membership stability is enforced by the harness answering every Ping correctly.",
+   "DESIGN.md §4 C14"),
+ "C15": ("exploration",
+   "property-based testing: model-based accountant (address -> bytes, transmissions left) over proptest histories, driven by the hook's ordered accept/send log and compared with the real backlog after every call",
+   "Random search with shrinking over histories at packet sizes where single updates barely fit; the accountant restates the statement and is compared with the backlog's real contents after every call.",
+   "Relies on the verif-hooks event log for which updates Foca accepted and on the snapshot for transmissions left.",
+   "DESIGN.md §4 C15"),
+ "C16": ("exploration",
+   "property-based testing: model-based accountant keyed by the harness handler's own decisions, receiver-side differential with a peer instance, over proptest histories with generated handlers",
+   "Random search with shrinking over handlers (4 invalidation relations x 3 acceptance rules x recipient subsets), item sizes and packet sizes; every datagram with items is replayed into a peer.",
+   "The handler is the harness's own; hook queue log only cross-checked.",
+   "DESIGN.md §4 C16"),
  "C06": ("exploration",
    "property-based testing / fuzzing: proptest-generated API+datagram+timer sequences on two wired instances under catch_unwind, in a release build and in a debug-assertions+overflow-checks build; scripted boundary-size scenarios; enumerative sweep of the Config constructors",
    "Random search with shrinking (30k sequences x 2 build regimes quick, 1.5M x 2 thorough) over the full operation alphabet incl. crafted timers, corrupted bytes and reconfiguration; scripted scenarios at the u16 / packet-size boundaries; the constructors are swept completely (all 2^32-1 values) in the thorough tier. Absence of a panic elsewhere is bounded by the reported counts.",
